@@ -1,3 +1,365 @@
 package main
 
-func cmdOmap(line []byte, emit func(interface{})) { emit(map[string]string{"harness_error": "omap not built yet"}) }
+import (
+	"encoding/json"
+	"fmt"
+	"math/rand"
+	"runtime"
+	"sort"
+	"strconv"
+	"strings"
+	"sync"
+	"sync/atomic"
+
+	"github.com/jsightapi/jsight-api-go-library/catalog"
+	"github.com/jsightapi/jsight-api-go-library/directive"
+)
+
+// A collection under test, reduced to integer values so that histories can be
+// replayed by the TLA+ specification OrderedMapAtomic.
+type coll interface {
+	Set(k string, v int)
+	SetToTop(k string, v int)
+	Update(k string) // increments the value if the key exists
+	Get(k string) (int, bool)
+	Has(k string) bool
+	Len() int
+	Each() string // "k=v,k=v" in iteration order
+	JSONKeys() string
+}
+
+func itoa(i int) string { return strconv.Itoa(i) }
+func atoi(s string) int { n, _ := strconv.Atoi(s); return n }
+
+// --- adapters --------------------------------------------------------------
+
+type serversColl struct{ m *catalog.Servers }
+
+func (c serversColl) Set(k string, v int)      { c.m.Set(k, &catalog.Server{Annotation: itoa(v)}) }
+func (c serversColl) SetToTop(k string, v int) { c.m.SetToTop(k, &catalog.Server{Annotation: itoa(v)}) }
+func (c serversColl) Update(k string) {
+	c.m.Update(k, func(s *catalog.Server) *catalog.Server {
+		return &catalog.Server{Annotation: itoa(atoi(s.Annotation) + 1)}
+	})
+}
+func (c serversColl) Get(k string) (int, bool) {
+	v, ok := c.m.Get(k)
+	if !ok {
+		return 0, false
+	}
+	return atoi(v.Annotation), true
+}
+func (c serversColl) Has(k string) bool { return c.m.Has(k) }
+func (c serversColl) Len() int          { return c.m.Len() }
+func (c serversColl) Each() string {
+	var p []string
+	_ = c.m.Each(func(k string, v *catalog.Server) error { p = append(p, k+"="+v.Annotation); return nil })
+	return strings.Join(p, ",")
+}
+func (c serversColl) JSONKeys() string { return jsonKeys(c.m) }
+
+type typesColl struct{ m *catalog.UserTypes }
+
+func (c typesColl) Set(k string, v int)      { c.m.Set(k, &catalog.UserType{Annotation: itoa(v)}) }
+func (c typesColl) SetToTop(k string, v int) { c.m.SetToTop(k, &catalog.UserType{Annotation: itoa(v)}) }
+func (c typesColl) Update(k string) {
+	c.m.Update(k, func(s *catalog.UserType) *catalog.UserType {
+		return &catalog.UserType{Annotation: itoa(atoi(s.Annotation) + 1)}
+	})
+}
+func (c typesColl) Get(k string) (int, bool) {
+	v, ok := c.m.Get(k)
+	if !ok {
+		return 0, false
+	}
+	return atoi(v.Annotation), true
+}
+func (c typesColl) Has(k string) bool { return c.m.Has(k) }
+func (c typesColl) Len() int          { return c.m.Len() }
+func (c typesColl) Each() string {
+	var p []string
+	_ = c.m.Each(func(k string, v *catalog.UserType) error { p = append(p, k+"="+v.Annotation); return nil })
+	return strings.Join(p, ",")
+}
+func (c typesColl) JSONKeys() string { return "" } // values hold schemas without notation: not serialisable here
+
+type rulesColl struct{ m *catalog.UserRules }
+
+func (c rulesColl) Set(k string, v int)      { c.m.Set(k, &catalog.UserRule{Annotation: itoa(v)}) }
+func (c rulesColl) SetToTop(k string, v int) { c.m.SetToTop(k, &catalog.UserRule{Annotation: itoa(v)}) }
+func (c rulesColl) Update(k string) {
+	c.m.Update(k, func(s *catalog.UserRule) *catalog.UserRule {
+		return &catalog.UserRule{Annotation: itoa(atoi(s.Annotation) + 1)}
+	})
+}
+func (c rulesColl) Get(k string) (int, bool) {
+	v, ok := c.m.Get(k)
+	if !ok {
+		return 0, false
+	}
+	return atoi(v.Annotation), true
+}
+func (c rulesColl) Has(k string) bool { return c.m.Has(k) }
+func (c rulesColl) Len() int          { return c.m.Len() }
+func (c rulesColl) Each() string {
+	var p []string
+	_ = c.m.Each(func(k string, v *catalog.UserRule) error { p = append(p, k+"="+v.Annotation); return nil })
+	return strings.Join(p, ",")
+}
+func (c rulesColl) JSONKeys() string { return jsonKeys(c.m) }
+
+type tagsColl struct{ m *catalog.Tags }
+
+func (c tagsColl) Set(k string, v int) { c.m.Set(catalog.TagName(k), catalog.NewTag(k, itoa(v))) }
+func (c tagsColl) SetToTop(k string, v int) {
+	c.m.SetToTop(catalog.TagName(k), catalog.NewTag(k, itoa(v)))
+}
+func (c tagsColl) Update(k string) {
+	c.m.Update(catalog.TagName(k), func(s *catalog.Tag) *catalog.Tag {
+		return catalog.NewTag(k, itoa(atoi(s.Title)+1))
+	})
+}
+func (c tagsColl) Get(k string) (int, bool) {
+	v, ok := c.m.Get(catalog.TagName(k))
+	if !ok {
+		return 0, false
+	}
+	return atoi(v.Title), true
+}
+func (c tagsColl) Has(k string) bool { return c.m.Has(catalog.TagName(k)) }
+func (c tagsColl) Len() int          { return c.m.Len() }
+func (c tagsColl) Each() string {
+	var p []string
+	_ = c.m.Each(func(k catalog.TagName, v *catalog.Tag) error { p = append(p, string(k)+"="+v.Title); return nil })
+	return strings.Join(p, ",")
+}
+func (c tagsColl) JSONKeys() string { return jsonKeys(c.m) }
+
+type dirsColl struct{ m *directive.Directives }
+
+func mkDir(v int) *directive.Directive {
+	d := directive.New(directive.Type, directive.Coords{})
+	d.Annotation = itoa(v)
+	return d
+}
+func (c dirsColl) Set(k string, v int)      { c.m.Set(k, mkDir(v)) }
+func (c dirsColl) SetToTop(k string, v int) { c.m.SetToTop(k, mkDir(v)) }
+func (c dirsColl) Update(k string) {
+	c.m.Update(k, func(s *directive.Directive) *directive.Directive { return mkDir(atoi(s.Annotation) + 1) })
+}
+func (c dirsColl) Get(k string) (int, bool) {
+	v, ok := c.m.Get(k)
+	if !ok {
+		return 0, false
+	}
+	return atoi(v.Annotation), true
+}
+func (c dirsColl) Has(k string) bool { return c.m.Has(k) }
+func (c dirsColl) Len() int          { return c.m.Len() }
+func (c dirsColl) Each() string {
+	var p []string
+	_ = c.m.Each(func(k string, v *directive.Directive) error { p = append(p, k+"="+v.Annotation); return nil })
+	return strings.Join(p, ",")
+}
+func (c dirsColl) JSONKeys() string { return "" }
+
+func jsonKeys(m json.Marshaler) string {
+	b, err := m.MarshalJSON()
+	if err != nil {
+		return "error:" + err.Error()
+	}
+	dec := json.NewDecoder(strings.NewReader(string(b)))
+	var keys []string
+	depth := 0
+	expectKey := false
+	for {
+		t, err := dec.Token()
+		if err != nil {
+			break
+		}
+		switch v := t.(type) {
+		case json.Delim:
+			switch v {
+			case '{':
+				depth++
+				expectKey = depth == 1
+			case '[':
+				depth++
+			case '}', ']':
+				depth--
+				expectKey = depth == 1
+			}
+		case string:
+			if depth == 1 && expectKey {
+				keys = append(keys, v)
+				expectKey = false
+				continue
+			}
+			if depth == 1 {
+				expectKey = true
+			}
+		default:
+			if depth == 1 {
+				expectKey = true
+			}
+		}
+	}
+	return strings.Join(keys, ",")
+}
+
+func newColl(kind string) coll {
+	switch kind {
+	case "Servers":
+		return serversColl{&catalog.Servers{}}
+	case "UserTypes":
+		return typesColl{&catalog.UserTypes{}}
+	case "UserRules":
+		return rulesColl{&catalog.UserRules{}}
+	case "Tags":
+		return tagsColl{&catalog.Tags{}}
+	case "Directives":
+		return dirsColl{&directive.Directives{}}
+	}
+	return nil
+}
+
+// --- history driver -------------------------------------------------------
+
+type omapCase struct {
+	ID         string   `json:"id"`
+	Kind       string   `json:"kind"`
+	Goroutines int      `json:"goroutines"`
+	Rounds     int      `json:"rounds"`
+	OpsPerG    int      `json:"ops"`
+	Keys       []string `json:"keys"`
+	Seed       int64    `json:"seed"`
+	// Program, if given, fixes the operations: program[round][goroutine] = list of [op,k,v]
+	Program [][][][3]string `json:"program"`
+}
+
+type event struct {
+	Seq int64  `json:"seq"`
+	E   string `json:"e"` // inv | ret | barrier
+	T   int    `json:"t"`
+	Op  string `json:"op,omitempty"`
+	K   string `json:"k,omitempty"`
+	V   int    `json:"v"`
+	R   string `json:"r,omitempty"`
+}
+
+type omapObs struct {
+	ID     string  `json:"id"`
+	Kind   string  `json:"kind"`
+	Events []event `json:"events"`
+	Final  string  `json:"final"`
+	Len    int     `json:"len"`
+	Panic  string  `json:"panic,omitempty"`
+}
+
+var opNames = []string{"Set", "Set", "SetToTop", "Update", "Update", "Get", "Has", "Len", "Each", "JSON"}
+
+func cmdOmap(line []byte, emit func(interface{})) {
+	var c omapCase
+	if err := json.Unmarshal(line, &c); err != nil {
+		emit(map[string]string{"harness_error": err.Error()})
+		return
+	}
+	emit(map[string]string{"begin": c.ID})
+	m := newColl(c.Kind)
+	if m == nil {
+		emit(map[string]string{"harness_error": "unknown collection " + c.Kind})
+		return
+	}
+	o := &omapObs{ID: c.ID, Kind: c.Kind}
+	var seq int64
+	var mu sync.Mutex
+	rec := func(e event) {
+		mu.Lock()
+		o.Events = append(o.Events, e)
+		mu.Unlock()
+	}
+	rounds := c.Rounds
+	if len(c.Program) > 0 {
+		rounds = len(c.Program)
+	}
+	for r := 0; r < rounds; r++ {
+		var wg sync.WaitGroup
+		start := make(chan struct{})
+		ng := c.Goroutines
+		if len(c.Program) > 0 {
+			ng = len(c.Program[r])
+		}
+		for g := 0; g < ng; g++ {
+			wg.Add(1)
+			go func(g int) {
+				defer wg.Done()
+				defer func() {
+					if x := recover(); x != nil {
+						mu.Lock()
+						o.Panic = fmt.Sprint(x)
+						mu.Unlock()
+					}
+				}()
+				rnd := rand.New(rand.NewSource(c.Seed*1000 + int64(r)*100 + int64(g)))
+				<-start
+				nops := c.OpsPerG
+				if len(c.Program) > 0 {
+					nops = len(c.Program[r][g])
+				}
+				for i := 0; i < nops; i++ {
+					var op, k string
+					var v int
+					if len(c.Program) > 0 {
+						op, k, v = c.Program[r][g][i][0], c.Program[r][g][i][1], atoi(c.Program[r][g][i][2])
+					} else {
+						op = opNames[rnd.Intn(len(opNames))]
+						k = c.Keys[rnd.Intn(len(c.Keys))]
+						v = rnd.Intn(90) + 10
+					}
+					if op == "JSON" && m.JSONKeys() == "" && m.Len() > 0 {
+						op = "Each"
+					}
+					rec(event{Seq: atomic.AddInt64(&seq, 1), E: "inv", T: g + 1, Op: op, K: k, V: v})
+					if rnd.Intn(2) == 0 {
+						runtime.Gosched() // widen the window between invoke and effect
+					}
+					var res string
+					switch op {
+					case "Set":
+						m.Set(k, v)
+						res = "ok"
+					case "SetToTop":
+						m.SetToTop(k, v)
+						res = "ok"
+					case "Update":
+						m.Update(k)
+						res = "ok"
+					case "Get":
+						x, ok := m.Get(k)
+						if ok {
+							res = itoa(x)
+						} else {
+							res = "none"
+						}
+					case "Has":
+						res = strconv.FormatBool(m.Has(k))
+					case "Len":
+						res = itoa(m.Len())
+					case "Each":
+						res = m.Each()
+					case "JSON":
+						res = m.JSONKeys()
+					}
+					rec(event{Seq: atomic.AddInt64(&seq, 1), E: "ret", T: g + 1, R: res})
+				}
+			}(g)
+		}
+		close(start)
+		wg.Wait()
+		rec(event{Seq: atomic.AddInt64(&seq, 1), E: "barrier"})
+	}
+	sort.Slice(o.Events, func(i, j int) bool { return o.Events[i].Seq < o.Events[j].Seq })
+	o.Final = m.Each()
+	o.Len = m.Len()
+	emit(o)
+}
